@@ -152,11 +152,12 @@ end CV.Props.C02
 namespace CV.Props.C02
 
 /-- (facts, regenerated from the source on every run) **The source text the model transcribes is the text of the
-    current source**: the bodies (comments and layout removed) of the 17 functions the model behind C02 was written from and
+    current source**: the bodies (comments and layout removed) of the 22 functions the model behind C02 was written from and
     validated against.  Any edit of one of them breaks this theorem at build time; the check then searches with the
     property's own oracles for a failing input, and reports `no-failing-input-found` if it finds none: the model then
     has to be re-validated against the new text (and this block regenerated). -/
 theorem source_decision_logic : CV.Facts.logicC02 = [
+  "clover..NewFieldRangeVisitor: { return &FieldRangeVisitor{ Fields: util.StringSliceToSet(fields), } }", 
   "clover..getIndexQueries: { if q.Criteria() == nil || len(indexes) == 0 { return nil } info := make(map[string]*index.Info) for _, idx := range indexes { info[idx.Field()] = &index.Info{ Field: idx.Field(), Type: idx.Type(), } } c := q.Criteria().Accept(&NotFlattenVisitor{}).(query.Criteria) selectedFields := c.Accept(&IndexSelectVisitor{ Fields: info, }).([]*index.Info) if len(selectedFields) == 0 { return nil } indexesMap := make(map[string]index.Index) for _, idx := range indexes { indexesMap[idx.Field()] = idx } fieldRanges := c.Accept(NewFieldRangeVisitor([]string{selectedFields[0].Field})).(map[string]*index.Range) queries := make([]index.Query, 0) for field, vRange := range fieldRanges { queries = append(queries, &index.RangeIndexQuery{ Range: vRange, Idx: indexesMap[field].(index.RangeIndex), }) } return queries }", 
   "clover..tryToSelectIndex: { indexQueries := getIndexQueries(q, indexes) if len(indexQueries) == 1 { outputSorted := false idxQuery := indexQueries[0] if rangeQuery, ok := idxQuery.(*index.RangeIndexQuery); ok { if len(q.SortOptions()) == 1 && q.SortOptions()[0].Field == rangeQuery.Idx.Field() { rangeQuery.Reverse = q.SortOptions()[0].Direction < 0 outputSorted = true } } return &iterNode{ idxQuery: idxQuery, filter: q.Criteria(), collection: q.Collection(), }, outputSorted } if len(q.SortOptions()) == 1 { for _, idx := range indexes { if idx.Type() == index.SingleField && idx.Field() == q.SortOptions()[0].Field { return &iterNode{ filter: q.Criteria(), collection: q.Collection(), idxQuery: &index.RangeIndexQuery{ Range: nil, Idx: idx.(index.RangeIndex), Reverse: q.SortOptions()[0].Direction < 0, }, }, true } } } return nil, false }", 
   "clover..unaryCriteriaToRange: { if isFieldReference(c.Value) { return nil } if c.Value == nil && c.OpType != query.EqOp { return nil } switch c.OpType { case query.EqOp: return &index.Range{ Start: c.Value, End: c.Value, StartIncluded: true, EndIncluded: true, } case query.LtOp: return &index.Range{ Start: nil, End: c.Value, StartIncluded: false, EndIncluded: false, } case query.LtEqOp: return &index.Range{ Start: nil, End: c.Value, StartIncluded: false, EndIncluded: true, } case query.GtOp: return &index.Range{ Start: c.Value, End: nil, StartIncluded: false, EndIncluded: false, } case query.GtEqOp: return &index.Range{ Start: c.Value, End: nil, StartIncluded: true, EndIncluded: false, } } return nil }", 
@@ -173,7 +174,11 @@ theorem source_decision_logic : CV.Facts.logicC02 = [
   "clover.iterNode.Run: { if nd.idxQuery != nil { return nd.iterateIndex(tx) } return nd.iterateFullCollection(tx) }", 
   "clover.iterNode.iterateFullCollection: { prefix := []byte(getDocumentKeyPrefix(nd.collection)) return iteratePrefix(prefix, tx, func(item store.Item) error { doc, err := d.Decode(item.Value) if err != nil { return err } if nd.filter == nil || nd.filter.Satisfy(doc) { return nd.CallNext(doc) } return nil }) }", 
   "clover.iterNode.iterateIndex: { iterFunc := func(docId string) error { doc, err := getDocumentById(nd.collection, docId, tx) if err != nil || doc == nil { return err } if nd.filter == nil || nd.filter.Satisfy(doc) { return nd.CallNext(doc) } return nil } err := nd.idxQuery.Run(iterFunc) return err }", 
-  "index.RangeIndexQuery.Run: { if q.Range == nil { return q.Idx.Iterate(q.Reverse, onValue) } return q.Idx.IterateRange(q.Range, q.Reverse, onValue) }"] := by rfl
+  "index.RangeIndexQuery.Run: { if q.Range == nil { return q.Idx.Iterate(q.Reverse, onValue) } return q.Idx.IterateRange(q.Range, q.Reverse, onValue) }", 
+  "query.BinaryCriteria.Accept: { return v.VisitBinaryCriteria(c) }", 
+  "query.NotCriteria.Accept: { return v.VisitNotCriteria(c) }", 
+  "query.UnaryCriteria.Accept: { return v.VisitUnaryCriteria(c) }", 
+  "util..StringSliceToSet: { set := make(map[string]bool) for _, str := range s { set[str] = true } return set }"] := by rfl
 
 end CV.Props.C02
 -- SOURCE-TEXT-END
